@@ -350,7 +350,7 @@ Fixpoint cmodel_run (x : xstate) (ops : list op) (obs : list csnap) : list csnap
 Definition ecls_eqb (a b : ecls) : bool :=
   match a, b with
   | EClosed, EClosed | ECanceled, ECanceled | EEOF, EEOF | EUnknown, EUnknown
-  | ETimeout, ETimeout | EOther, EOther => true
+  | ETimeout, ETimeout | ETooBig, ETooBig | EOther, EOther => true
   | _, _ => false
   end.
 
@@ -394,6 +394,7 @@ Inductive case :=
 | CScript (is_tcp hs : bool) (np nhand : nat) (ops : list op) (obs : list snap)
 | CReal (is_tcp hs : bool) (np nhand : nat) (ops : list op) (obs : list csnap)
 | CClassify (e : rawerr) (lost : bool) (nhand : nat) (obs_cls : ecls) (obs_left : bool) (obs_calls : nat)
+| CClassDirect (c : ecls) (lost : bool) (nhand : nat) (obs_left : bool) (obs_calls : nat)
 | CEntry (ep : entry) (self : nat) (dests : list nat) (up : list nat)
          (obs_errs : nat) (obs_deliv : list nat)
 | CConfig (first_failed : bool) (obs_victim_msg obs_victim_cfg obs_control_cfg : bool)
@@ -443,6 +444,11 @@ Definition agree (c : case) : bool :=
       | Drop => obs_left && (obs_calls =? nhand)
       | Continue => negb obs_left && (obs_calls =? 0)
       end
+  | CClassDirect c lost nhand obs_left obs_calls =>
+      match classify c with
+      | Drop => obs_left && (obs_calls =? nhand)
+      | Continue => negb obs_left && (obs_calls =? 0)
+      end
   | CEntry ep self dests up obs_errs obs_deliv =>
       let (e, d) := entry_model code_fixed_F10 ep self dests up in
       (e =? obs_errs) && same_set d obs_deliv
@@ -481,7 +487,7 @@ Definition truth_step (t : truth) (o : op) (skipped : bool) : truth :=
   end.
 
 Definition fatal (e : ecls) : bool :=
-  match e with ETimeout | EClosed | EEOF | EUnknown => true | _ => false end.
+  match e with ETimeout | EClosed | EEOF | EUnknown | ETooBig => true | _ => false end.
 
 Definition nth_list {A} (l : list (list A)) (p : nat) : list A :=
   match nth_error l p with Some x => x | None => [] end.
@@ -634,6 +640,8 @@ Definition check (c : case) : list nat :=
   | CScript is_tcp _ np nhand ops obs => check_script is_tcp nhand truth0 (snap0 np) None ops obs
   | CReal is_tcp _ np nhand ops obs => check_real is_tcp nhand truth0 (csnap0 np nhand) None ops obs
   | CClassify e lost nhand obs_cls obs_left obs_calls =>
+      clause 6 (negb lost || obs_left) ++ clause 3 (negb lost || (obs_calls =? nhand))
+  | CClassDirect c lost nhand obs_left obs_calls =>
       clause 6 (negb lost || obs_left) ++ clause 3 (negb lost || (obs_calls =? nhand))
   | CEntry ep self dests up obs_errs obs_deliv =>
       let att := attempted ep self dests up in
